@@ -199,11 +199,9 @@ class ProductState:
                 # Constructing the einsum str
                 einsum = ESC.measure_vector(remaining_states, [state])
 
-                # Project the state with einsum string
-                projected_state = jnp.einsum(einsum, ps)
-
-                # Outcome Probabilities
-                probabilities = jnp.abs(projected_state.flatten()) ** 2
+                # Outcome Probabilities: squared amplitudes summed over all of
+                # the states, which are not measured
+                probabilities = jnp.einsum(einsum, jnp.abs(ps) ** 2).flatten()
                 probabilities /= jnp.sum(probabilities)
 
                 # Decide on output
